@@ -338,7 +338,7 @@ class Check:
         self.obligations.append((name, bool(ok), detail))
 
     def replay_file(self, tag, content):
-        p = os.path.join(self.outdir, "replays", "%s-%s-%d.json" % (self.pid, re.sub(r'[^A-Za-z0-9_.-]', '_', tag)[:60], self.seed))
+        p = os.path.join(self.outdir, "replays", "%s-%s-%d.json" % (self.pid, re.sub(r'[^A-Za-z0-9_.-]', '_', tag)[:110], self.seed))
         with open(p, "w") as f:
             json.dump(content, f, indent=1)
         return p
